@@ -990,7 +990,7 @@ func init() {
 		Run: func(rr *RuleRun) { runStdlibBit(rr, "notnull") },
 	})
 	register(&Rule{
-		ID: "C12.unknown-guards", Prop: "C12", Also: []string{"C11"}, Floor: 60, Controls: 1,
+		ID: "C12.unknown-guards", Prop: "C12", Also: []string{"C11"}, Floor: 45, Controls: 1,
 		Doc: "in every Type callback (which receives unknown placeholders by contract) and in every Impl callback for parameters declared AllowUnknown — and for elements of any argument, which may always be unknown — each known-only accessor is dominated by IsKnown / IsWhollyKnown on the same subject or its container (weakening an argument to unknown must not turn success into a panic)",
 		Run: func(rr *RuleRun) { runStdlibBit(rr, "known") },
 	})
